@@ -108,6 +108,7 @@ def gen_plan(rng, index, tier):
     else:
         plan["two_sizes"] = rng.random() < 0.4
         plan["shuffle_seed"] = rng.randrange(1 << 30)
+        plan["empty_lf"] = rng.random() < 0.3
         if plan["pred"] == "topdown" and via == "make_pipeline":
             pass
     # faults
@@ -192,6 +193,8 @@ def shrink(plan):
             p = copy.deepcopy(plan)
             p["faults"][i]["exc"] = "OSError"
             yield p
+    if plan.get("empty_lf"):
+        yield mod(empty_lf=False)
     if plan["provider"] == "labels_ik":
         yield mod(provider="labels")
     if plan["sched"]["strategy"] != "uniform":
@@ -248,6 +251,9 @@ def _build(plan, sim, hook):
         for t in truth:
             k = r.randint(1, 3)
             insts = [(np.array([[1.0 + j, 2.0], [2.0, 1.0 + j]]), False) for j in range(k)]
+            if plan.get("empty_lf") and r.random() < 0.35:
+                # a labelled frame that holds nothing but an empty instance: still a frame of the stream
+                k, insts = 0, [(np.full((2, 2), np.nan), False)]
             spec.append((t["v"], t["f"], insts))
             t["ninst"] = k
         labels = media.make_labels(vids, sk, spec)
@@ -476,6 +482,7 @@ def execute(plan, choices=None):
         "fine_grained_run": int(plan["sched"].get("fine", False)),
         "via_make_pipeline": int(plan["via"] != "direct"),
         "fair_mode_entered": int(sim.fair_mode),
+        "labelled_frame_without_instances": int(any(t.get("ninst") == 0 for t in exp)),
     }
     cls = f"{plan['provider']}/{plan['via']}/{plan['pred']}/c{plan['cap']}/b{plan['batch']}/n{len(exp)}/{cut}"
     inter = sim.interleaving_digest()
